@@ -43,6 +43,10 @@ type Call struct {
 
 	Threads int  `json:"threads,omitempty"`
 	NCPU    int  `json:"ncpu,omitempty"` // answer of runtime.NumCPU in controlled runs (0 -> Threads or 2)
+	// operation history inside one process (one controlled run): the same call made once before, with its
+	// output discarded (PriorCall) or with every write to its output failing (PriorFailedCall)
+	PriorCall       bool `json:"priorcall,omitempty"`
+	PriorFailedCall bool `json:"priorfailedcall,omitempty"`
 	Wrap    int  `json:"wrap,omitempty"` // 0 -> -1
 	Start   int  `json:"start,omitempty"` // 0 -> -1
 	End     int  `json:"end,omitempty"`
@@ -279,17 +283,26 @@ func (c *Call) Ctl(prefix []int) (*zzvs.Result, Obs) {
 func (c *Call) CtlW(prefix []int, wrap func(io.Writer) io.Writer) (*zzvs.Result, Obs) {
 	var buf bytes.Buffer
 	var err error
+	var atReturn *string
 	r := zzvs.Run(prefix, c.ncpu(), func() {
+		c.prior()
 		var w io.Writer = &buf
 		if wrap != nil {
 			w = wrap(w)
 		}
 		err = c.Run(w)
+		// the output as it is when the command returns (what the unwinding of still-parked goroutines at the
+		// end of the controlled run may add - deferred flushes - would be lost at process exit)
+		s := buf.String()
+		atReturn = &s
 	})
 	if r.Outcome == "engine-timeout" {
 		engine.EngineError("watchdog expired in %s", c.Cmd)
 	}
 	o := Obs{Outcome: r.Outcome, Out: buf.String()}
+	if atReturn != nil {
+		o.Out = *atReturn
+	}
 	if r.Outcome == "returned" && err != nil {
 		o.HasErr = true
 		o.Err = err.Error()
@@ -301,6 +314,20 @@ func (c *Call) CtlW(prefix []int, wrap func(io.Writer) io.Writer) (*zzvs.Result,
 		o.Detail = strings.Join(r.Blocked, "; ")
 	}
 	return r, o
+}
+
+type failingWriter struct{}
+
+func (failingWriter) Write(p []byte) (int, error) { return 0, fmt.Errorf("injected: earlier call's output refused") }
+
+// prior makes the earlier call of the history, if the case has one.
+func (c *Call) prior() {
+	if c.PriorFailedCall {
+		c.Run(failingWriter{})
+	}
+	if c.PriorCall {
+		c.Run(io.Discard)
+	}
 }
 
 // Canon runs the canonical schedule.
